@@ -213,6 +213,9 @@ func c12Run(m *meta.Module, strategy int, entry int, del bool) {
 			}
 		}
 		vpAssertK("C12-choose-error-swallowed", firedKind == "choose" && faultDst, err != nil, "an error returned by a node callback makes the call fail")
+		if err == nil {
+			return // (known finding) the edit went on as if nothing had failed: nothing more to compare
+		}
 		if err != nil {
 			if !vpIsSymbolic() && !errors.Is(err, errInjected) {
 				println("DEBUG err:", err.Error(), "firedKind:", firedKind)
